@@ -530,6 +530,98 @@ def oracle(p):
         except Exception as e:  # noqa
             fail(f"C06:{name}:views:raises:{type(e).__name__}", f"{name}: evaluating the views raises {type(e).__name__}: {str(e)[:200]}", cls=name, D=D,
                  trace=traceback.format_exc(limit=2)[-400:])
+    # ---- 2a. PointSetTransformer / points() argument defaults: omitted to_grid = the INPUT grid, omitted to_axes = the input axes
+    for i in range(max(8, n // 8)):
+        name = (LINEAR + NONRIGID)[(3 * i) % len(names)]
+        D = 3 if name in ("QuaternionRotation", "RigidQuaternionTransform") else rng.choice([2, 3])
+        g = rgrid(rng, D, ac=True if "FreeForm" in name else None)
+        t = rand_transform(rng, name, g, 1)
+        g = t.grid()
+        gin = rgrid(rng, D)
+        try:
+            with torch.no_grad():
+                t.update()
+                for ax, tax in ((Axes.GRID, None), (Axes.CUBE, None), (Axes.CUBE_CORNERS, Axes.GRID), (Axes.GRID, Axes.CUBE), (Axes.WORLD, Axes.CUBE_CORNERS)):
+                    xw = g.transform_points((torch.rand(1, 5, D) * 1.4 - 0.7).double(), t.axes(), to_axes=Axes.WORLD, decimals=None)
+                    xin = gin.transform_points(xw, Axes.WORLD, to_axes=ax, decimals=None).float()
+                    yw = world_map_reference(t, g, xw.float()).double()
+                    ref = gin.transform_points(yw, Axes.WORLD, to_axes=tax if tax is not None else ax, decimals=None).float()   # w.r.t. the INPUT grid
+                    scale = 1 + float(ref.abs().max())
+                    note("arg-defaults")
+                    for site, got in (("PointSetTransformer.__init__", S.PointSetTransformer(t, grid=gin, axes=ax, to_axes=tax)(xin)),
+                                      ("SpatialTransform.points", t.points(xin, grid=gin, axes=ax, to_axes=tax))):
+                        dd = float((got - ref).abs().max()) / scale
+                        if dd > 5 * tol:
+                            fail(f"C06:{site}:to_grid-default:not-the-input-grid",
+                                 f"{site.split('.')[0]}({name}, grid=G, axes={ax.value}, to_axes={getattr(tax, 'value', None)}) with to_grid omitted: output is not expressed "
+                                 f"w.r.t. the input grid G (deviation {dd:.3g} relative)", cls=name, D=D, axes=ax.value)
+        except Exception as e:  # noqa
+            fail(f"C06:{name}:arg-defaults:raises:{type(e).__name__}", f"{name}: PointSetTransformer/points with omitted to_grid raises {type(e).__name__}: {str(e)[:200]}", cls=name, D=D)
+    # ---- 2c. the views still agree after state-changing setters on buffered (already evaluated) transforms: data_, grid_, condition_
+    for name in NONRIGID + ["Translation", "AffineTransform"]:
+        for D in (2, 3):
+            for pkind in ("parameter", "tensor", "callable"):
+                ff = "FreeForm" in name
+                g = rgrid(rng, D, ac=True if ff else None)
+                g = Grid(size=[int(v) + 3 for v in g.size()], spacing=g.spacing(), center=g.center(), direction=g.direction(), align_corners=g.align_corners())
+                try:
+                    cls = getattr(S, name)
+                    if name == "AffineTransform":
+                        if pkind != "parameter":
+                            continue
+                        t = cls(g)
+                        holders = [t.translation, t.rotation, t.scaling]
+                    else:
+                        t = cls(g, params=(lambda a: a) if pkind == "callable" else (pkind == "parameter"))
+                        holders = [t]
+                    shapes = [(1,) + tuple(h.data_shape) for h in holders]
+
+                    def newp(k):
+                        base_ = 1.0 if name == "AffineTransform" and k == 2 else 0.0
+                        return base_ + (torch.rand(shapes[k]) - 0.5) * 0.2
+                    with torch.no_grad():
+                        if pkind == "callable":
+                            t.condition_(newp(0))
+                        else:
+                            for k, h in enumerate(holders):
+                                h.data_(newp(k))
+                        t.update()
+                        xg = g.coords().unsqueeze(0)
+                        t(xg)                                   # evaluated once: buffers exist
+                        setters = ["condition_"] if pkind == "callable" else ["data_"] + (["grid_"] if not t.linear else [])
+                        for setter in setters:
+                            if setter == "data_":
+                                for k, h in enumerate(holders):
+                                    h.data_(newp(k))
+                            elif setter == "condition_":
+                                t.condition_(newp(0))
+                            else:
+                                g2 = g.resize([int(v) * 2 - 1 for v in g.size()])
+                                t.grid_(g2)
+                                g = t.grid()
+                                xg = g.coords().unsqueeze(0)
+                            # views queried BEFORE the transform is called again (the call refreshes the buffers)
+                            d = t.disp()
+                            fl = t.flow().tensor()
+                            ten = t.tensor()
+                            xw = g.transform_points(xg.double(), t.axes(), to_axes=Axes.WORLD, decimals=None).float()
+                            pw = t.points(xw, axes=Axes.WORLD)
+                            y = t(xg)
+                            yw = g.transform_points(y.double(), t.axes(), to_axes=Axes.WORLD, decimals=None).float()
+                            note("setter-" + setter)
+                            devs = {"disp": float((xg + d.movedim(1, -1) - y).abs().max()), "flow": float((xg + fl.movedim(1, -1) - y).abs().max()),
+                                    "points": float((pw - yw).abs().max()) / (1 + float(yw.abs().max()))}
+                            if not t.linear:
+                                devs["tensor"] = float((ten - t.tensor()).abs().max())
+                            bad = {k_: v_ for k_, v_ in devs.items() if v_ > tol}
+                            if bad:
+                                site = "ParametricTransform." + setter if setter != "condition_" else "SpatialTransform.condition_"
+                                fail(f"C06:{site}:{'linear' if t.linear else 'nonrigid'}:{pkind}:views-stale",
+                                     f"{name} (params: {pkind}, D={D}) evaluated once, then {setter}(...): {sorted(bad)} still describe the old state "
+                                     f"while transform(x) describes the new one (deviations {bad})", cls=name, D=D, setter=setter, pkind=pkind)
+                except Exception as e:  # noqa
+                    fail(f"C06:{name}:setter:raises:{type(e).__name__}", f"{name} (params: {pkind}, D={D}): views after setters raise {type(e).__name__}: {str(e)[:200]}",
+                         cls=name, D=D, trace=traceback.format_exc(limit=2)[-300:])
     # ---- 2b. coarse parameter lattices: stride > 1 x resize x align_corners x class, own-grid disp()/flow()/tensor() vs the point map
     for name in NONRIGID:
         ff = "FreeForm" in name
@@ -710,6 +802,30 @@ def oracle(p):
                                  f"(ramp image, linear interpolation)", cls=name, D=D, kind=kind)
             except Exception as e:  # noqa
                 fail(f"C06:ImageTransformer:{kind}:raises:{type(e).__name__}", f"ImageTransformer({name}, target={kind}) raises {type(e).__name__}: {str(e)[:200]}", cls=name, D=D)
+    # ---- 5. ImageTransformer(flip_coords=True): the transform acts on (z, y, x) coordinates; for transforms that do not care about the
+    #         component order (identity, zero fields) the output must not depend on the flag, whatever the target grid
+    for D in (2, 3):
+        for kind in ("own", "other"):
+            for name in ("Translation", "DisplacementFieldTransform"):
+                g = rgrid(rng, D)
+                tg = g if kind == "own" else rgrid(rng, D)
+                src = Grid(size=[24] * D, spacing=[0.5] * D, center=[float(v) for v in g.center()])
+                try:
+                    with torch.no_grad():
+                        t = getattr(S, name)(g)
+                        w = src.points()
+                        coef = torch.tensor([1.0, -0.5, 0.25][:D])
+                        img = ((w * coef).sum(-1) + 0.3).unsqueeze(0).unsqueeze(0)
+                        a = S.ImageTransformer(t, target=tg, source=src, padding="border", flip_coords=False)(img)
+                        b = S.ImageTransformer(t, target=tg, source=src, padding="border", flip_coords=True)(img)
+                        dd = float((a - b).abs().max())
+                        note("flip_coords")
+                        if dd > 1e-3:
+                            fail(f"C06:ImageTransformer.__init__:flip_coords:target-{kind}-grid",
+                                 f"ImageTransformer(fresh {name}, target={kind} grid, flip_coords=True) differs from flip_coords=False by {dd:.3g} for the identity "
+                                 f"transform (D={D}): the flipped (z, y, x) coordinates are pre-mapped by target.transform_points as if they were (x, y, z)", cls=name, D=D)
+                except Exception as e:  # noqa
+                    fail(f"C06:ImageTransformer:flip_coords:raises:{type(e).__name__}", f"ImageTransformer(flip_coords=True) raises {type(e).__name__}: {str(e)[:200]}", D=D)
     return {"fails": fails, "counts": counts}
 
 
